@@ -13,6 +13,13 @@
   render-terminates  the conflict message traversal marks every candidate as reported before pushing its children
   panic-census       the explicit panic sites (unreachable!/assert!/expect/unwrap/panic!) reachable from solve and the
                      rendering entry points are frozen (function, kind, message) with a discharge class; a new site is a violation
+
+Added after the second and third seeding rounds:
+  assertions / conflict-signal / unsolvable-at-root / grow-to-fit  protocols behind `unreachable!` in decide(), the level assertion
+                in analyze_unsolvable and Mapping's checked indexing (shared with C01, C02, C19)
+  resize-covers-index  a growth site of an id-indexed table computes the new length from the index about to be used
+  poll-only-where-the-provider-is-fetched  cancellation is polled in the cache only in get_or_cache_candidates / _dependencies
+                (Conflict::graph unwraps the derived caches)
 """
 import json, os
 from common import *
